@@ -162,7 +162,6 @@ class LogFormatter(logging.Formatter):
         Returns:
             str: The sanitized and optionally colorized log record.
         """
-        record = self.color_code(record)
         parts = record.split("|")
         json_part = parts.pop()
 
@@ -182,9 +181,13 @@ class LogFormatter(logging.Formatter):
             if dirty_record is None:
                 raise ValueError("No JSON object in record")
             clean_record = self.clean_record(dirty_record)
+            # the level is coloured in the header fields only: colour tokens put into the
+            # message would stop it being read as JSON, and it would be written unsanitized
+            parts = [self.color_code(part) for part in parts]
             parts.append(" " + json.dumps(clean_record))
 
         except ValueError:
+            parts = [self.color_code(part) for part in parts]
             json_part = re.sub(r"`([^`]*)`", r"`\001YELLOWm\1\001OFFm`", f"{json_part}")
             json_part = re.sub(r"'([^']*)'", r"'\001YELLOWm\1\001OFFm'", f"{json_part}")
             json_part = re.sub(r'"([^"]*)"', r"'\001YELLOWm\1\001OFFm'", f"{json_part}")
